@@ -25,6 +25,7 @@ Accepted(c, b) ==
    police |-> IF Has(c, "police") THEN [k \in 1..Len(c.police) |-> Police(b, SeqToSet(c.police[k][1]), SeqToSet(c.police[k][2]))] ELSE <<>>]
 
 Cuts(b) == [n \in 1..Len(b) |-> LET p == SubSeq(b, 1, n - 1) IN [parse |-> Parse(p), hdr |-> HeaderVerdict(p).ok]]
+CutList(b, l) == [k \in 1..Len(l) |-> LET p == SubSeq(b, 1, l[k]) IN [n |-> l[k], parse |-> Parse(p), hdr |-> HeaderVerdict(p).ok]]
 
 Expect(i) ==
   LET c == Cases[i]  b == c.bytes  p == Parse(b) IN
@@ -34,7 +35,8 @@ Expect(i) ==
    causes |-> SetToSeq(Causes(b)), hdr |-> HeaderVerdict(b), typ |-> TypeVerdict(b),
    acc |-> IF p.ok THEN Accepted(c, b) ELSE [none |-> TRUE],
    keyplans |-> IF Has(c, "creds") THEN [k \in 1..Len(c.creds) |-> KeyPlan(c.creds[k])] ELSE <<>>,
-   cuts |-> IF Has(c, "cuts") /\ c.cuts /\ p.ok THEN Cuts(b) ELSE <<>>]
+   cuts |-> IF Has(c, "cuts") /\ c.cuts /\ p.ok THEN Cuts(b) ELSE <<>>,
+   cutlist |-> IF Has(c, "cutlist") /\ p.ok THEN CutList(b, c.cutlist) ELSE <<>>]
 
 ASSUME \A i \in 1..Len(Cases) : PrintT("EXPECT " \o ToJson(Expect(i)))
 ASSUME PrintT("JUDGED " \o ToString(Len(Cases)))
